@@ -133,9 +133,61 @@ Definition mk_out (toks : list arv) : schema :=
   let suffix := map (fun kt : arv => last_comp (snd (snd kt))) toks in
   map (fun kt : arv => (fst kt, (fst (snd kt), join "." (removelast (split_on "." (snd (snd kt))) ++ suffix)))) toks.
 
+Lemma NoDup_app_intro {A} : forall (a b : list A),
+  NoDup a -> NoDup b -> (forall c, In c a -> ~ In c b) -> NoDup (a ++ b).
+Proof.
+  induction a as [|y a IHa]; simpl; intros b Na Nb Hd; auto. inversion Na; subst. constructor.
+  - rewrite in_app_iff. intros [?|?]; [tauto|]. eapply Hd; eauto.
+  - apply IHa; auto.
+Qed.
+
+Lemma getp_found q (c : list arv) : In q (map fst c) -> In (getp q c) c /\ fst (getp q c) = q.
+Proof.
+  intros H. unfold getp. induction c as [|y c IH]; simpl in *; [tauto|].
+  destruct (String.eqb_spec (fst y) q); [auto|]. destruct H; [congruence|].
+  destruct (IH H) as [A B]. auto.
+Qed.
+
+Lemma getp_cons_ne q y (c : list arv) : fst y <> q -> getp q (y :: c) = getp q c.
+Proof. intros H. unfold getp. simpl. destruct (String.eqb_spec (fst y) q); [congruence|reflexivity]. Qed.
+Lemma getp_cons_eq y (c : list arv) : getp (fst y) (y :: c) = y.
+Proof. unfold getp. simpl. now rewrite String.eqb_refl. Qed.
+
+Lemma reorder_self : forall (c : list arv), NoDup (map fst c) -> map (fun q => getp q c) (map fst c) = c.
+Proof.
+  induction c as [|y c IH]; simpl; intros ND; auto. inversion ND; subst.
+  rewrite getp_cons_eq. f_equal. rewrite <- (IH H2) at 2. apply map_ext_in.
+  intros q Hq. apply getp_cons_ne. intros E. subst. tauto.
+Qed.
+
+Lemma getp_map q (G : string -> arv) : forall ps,
+  In q ps -> (forall q', In q' ps -> fst (G q') = q') -> getp q (map G ps) = G q.
+Proof.
+  induction ps as [|q0 ps IH]; simpl; [tauto|]. intros H HG.
+  destruct (String.eqb_spec q0 q).
+  - subst q0. rewrite <- (HG q (or_introl eq_refl)) at 1. apply getp_cons_eq.
+  - rewrite getp_cons_ne by (rewrite HG; auto). apply IH; auto. destruct H; congruence.
+Qed.
+
+Lemma NoDup_fst_inj (c : list arv) a b : NoDup (map fst c) -> In a c -> In b c -> fst a = fst b -> a = b.
+Proof.
+  induction c as [|y c IH]; simpl; [tauto|]. intros ND Ha Hb E. inversion ND; subst.
+  destruct Ha as [<-|Ha]; destruct Hb as [<-|Hb]; auto.
+  - exfalso. apply H1. rewrite E. now apply in_map.
+  - exfalso. apply H1. rewrite <- E. now apply in_map.
+Qed.
+
+Lemma Forall2_map2 {A B C} (g : A -> B) (f : A -> C) (R : B -> C -> Prop) : forall ps,
+  (forall q, In q ps -> R (g q) (f q)) -> Forall2 R (map g ps) (map f ps).
+Proof. induction ps; simpl; intros H; constructor; auto. Qed.
+
+Lemma arv_eq_dec (a b : arv) : {a = b} + {a <> b}.
+Proof. repeat decide equality. Qed.
+
 Section Cart.
 Variable items : list string.
 Variable d : nat.
+Hypothesis Hd : d <> 0.
 Let n := length items.
 
 Definition cc : outerc := mkouter (KCart d) (map IPort items).
@@ -291,6 +343,285 @@ Proof.
   unfold combine1. simpl okind. cbv iota. unfold add_to_list.
   change (elem_tag (ETok (snd x))) with (atag x). simpl otv.
   assert (Etag : match d with 0 => atag x | S _ => drop_last d (atag x) end = k).
-  { unfold k, gk. destruct d; auto. unfold drop_last. rewrite Nat.sub_0_r, firstn_all.
-    admit_drop0. }
+  { unfold k, gk. destruct d; [congruence|reflexivity]. }
   rewrite Etag.
+  (* propagation does nothing: the other groups are unrelated *)
+  rewrite propagate_any.
+  2:{ intros k' Hk'. unfold tvc in Hk'. rewrite gmk_keys in Hk'. apply Mt in Hk'.
+      apply in_map_iff in Hk'. destruct Hk' as (y & Ey & Hy).
+      destruct (String.eqb_spec k' k); auto. right. subst k'. split.
+      - apply (Hflat y x); [rewrite in_app_iff; auto|rewrite in_app_iff; simpl; auto|exact n0].
+      - apply (Hflat x y); [rewrite in_app_iff; simpl; auto|rewrite in_app_iff; auto|]. intros E. apply n0. now symmetry. }
+  set (l := gsel gk k arrived). set (l' := gsel gk k (arrived ++ [x])).
+  assert (El' : l' = l ++ [x]).
+  { unfold l', l. rewrite gsel_snoc. fold k. now rewrite String.eqb_refl. }
+  assert (Cur : match lookup k (tvc arrived) with Some pv => pv | None => [] end = pv_of l).
+  { unfold tvc. rewrite lookup_gmk_any. destruct (existsb (String.eqb k) (gkeys gk arrived)) eqn:E; auto.
+    assert (l = []) as ->; [|reflexivity].
+    destruct l as [|y r] eqn:El; auto. exfalso.
+    assert (In y (gsel gk k arrived)) by (fold l; rewrite El; simpl; auto).
+    apply gsel_in in H. destruct H as [H Hk].
+    assert (In k (gkeys gk arrived)) by (apply Mt; rewrite <- Hk; now apply in_map).
+    apply existsb_eqb_in in H0. congruence. }
+  rewrite Cur. fold p. rewrite cart_add_step.
+  2:{ rewrite <- El'. unfold l', gsel. clear -NDk. induction (arrived ++ [x]) as [|a r IH]; simpl; [constructor|].
+      simpl in NDk. inversion NDk; subst. destruct (String.eqb (gk a) k); simpl; auto.
+      constructor; auto. intros Hin. apply H1. apply in_map_iff in Hin. destruct Hin as (y & Ey & Hy).
+      apply filter_In in Hy. apply in_map_iff. exists y. tauto. }
+  rewrite <- El'.
+  assert (Etv : assoc_set k (pv_of l') (tvc arrived) = tvc (arrived ++ [x])).
+  { unfold tvc. rewrite assoc_set_gmk_any by exact NDt. rewrite gkeys_snoc. fold k. apply gmk_ext.
+    intros k' _. unfold gupd. destruct (String.eqb_spec k' k); [now subst|].
+    rewrite gsel_snoc. fold k. destruct (String.eqb_spec k k'); [congruence|]. now rewrite app_nil_r. }
+  rewrite Etv.
+  (* the product *)
+  unfold cart_product. change (drop_last d (snd (snd x))) with k.
+  destruct (gkeys_spec gk (arrived ++ [x])) as [NDt' Mt'].
+  assert (Hk' : In k (gkeys gk (arrived ++ [x]))).
+  { apply Mt'. rewrite map_app, in_app_iff. right. simpl. auto. }
+  unfold tvc at 1. rewrite lookup_gmk by exact Hk'. fold l'.
+  unfold emitted. fold k. fold l'. set (ports' := gkeys fst l').
+  assert (length (pv_of l') = length ports') as -> by (unfold pv_of, gmk; now rewrite map_length).
+  fold n. destruct (Nat.eqb_spec (length ports') n) as [En|En]; [|reflexivity].
+  assert (Els : map (fun kd : string * list elem =>
+                       if String.eqb (fst kd) p then [(fst kd, ETok (snd x))]
+                       else map (fun e => (fst kd, e)) (snd kd)) (pv_of l') =
+                map (map conv) (map (factor l' x) ports')).
+  { unfold pv_of, gmk. rewrite !map_map. apply map_ext_in. intros q Hq. simpl. unfold factor. fold p.
+    destruct (String.eqb_spec q p).
+    - subst q. reflexivity.
+    - unfold Dq. rewrite map_map. apply map_ext_in. intros y Hy. apply gsel_in in Hy.
+      destruct Hy as [_ <-]. reflexivity. }
+  rewrite Els, cproduct_map, cart_outs_conv; [reflexivity|].
+  intros c Hc q Hq. apply find_in_keys. rewrite (cproduct_ports _ _ _ _ Hc).
+  destruct (gkeys_spec fst l') as [NDp Mp]. fold ports' in NDp, Mp.
+  assert (incl ports' items).
+  { intros q' Hq'. apply Mp in Hq'. apply in_map_iff in Hq'. destruct Hq' as (y & <- & Hy).
+    apply gsel_in in Hy. apply Hports. tauto. }
+  assert (I2 : incl items ports').
+  { apply NoDup_length_incl; auto. unfold n in En. rewrite En. apply le_n. }
+  apply I2, Hq.
+Qed.
+
+Lemma run_cart : forall rest arrived,
+  wfc (arrived ++ rest) ->
+  run cc (mkst (tvc arrived) []) rest = (map (map mk_out) (ems arrived rest), None).
+Proof.
+  induction rest as [|x rest IH]; intros arrived W; simpl; auto.
+  replace (arrived ++ x :: rest) with ((arrived ++ [x]) ++ rest) in W by now rewrite <- app_assoc.
+  pose proof (combine_cart arrived x (wfc_prefix _ _ W)) as C.
+  destruct x as [p t]. cbn [fst snd] in C. rewrite C.
+  rewrite IH by exact W. reflexivity.
+Qed.
+
+(* ---------- what is emitted: exactly the choices, each once ---------- *)
+Lemma ems_snoc : forall r a x, concat (ems a (r ++ [x])) = concat (ems a r) ++ emitted (a ++ r) x.
+Proof.
+  induction r as [|y r IH]; intros a x; simpl.
+  - now rewrite !app_nil_r.
+  - rewrite IH, <- !app_assoc. simpl. reflexivity.
+Qed.
+
+(* a choice: one member per item (in item order), all arrived, all of one group *)
+Definition is_choice (l : list arv) (ch : list arv) : Prop :=
+  map fst ch = items /\ (forall y, In y ch -> In y l) /\ (forall y z, In y ch -> In z ch -> gk y = gk z).
+Definition new_choice (l : list arv) (x : arv) (ch : list arv) : Prop :=
+  map fst ch = items /\ In x ch /\ (forall y, In y ch -> In y (l ++ [x]) /\ gk y = gk x).
+
+Lemma choice_split l x ch : is_choice (l ++ [x]) ch <-> is_choice l ch \/ new_choice l x ch.
+Proof.
+  split.
+  - intros (A & B & C). destruct (in_dec arv_eq_dec x ch) as [i|ni].
+    + right. repeat split; auto.
+    + left. split; auto. split; auto. intros y Hy. pose proof (B y Hy) as B'. rewrite in_app_iff in B'.
+      destruct B' as [?|[<-|[]]]; auto. tauto.
+  - intros [(A & B & C)|(A & B & C)].
+    + split; auto. split; auto. intros y Hy. rewrite in_app_iff. auto.
+    + split; auto. split; [intros y Hy; apply C; auto|]. intros y z Hy Hz.
+      destruct (C y Hy) as [_ ->]. destruct (C z Hz) as [_ ->]. reflexivity.
+Qed.
+
+Lemma cproduct_members l' x : forall ps c, In c (cproduct (map (factor l' x) ps)) ->
+  forall y, In y c -> In y (factor l' x (fst y)).
+Proof.
+  intros ps c Hc. apply in_cproduct in Hc. revert c Hc.
+  induction ps as [|q ps IH]; intros c Hc; inversion Hc as [|a L c' Ls Ha Hrest]; subst; simpl; [tauto|].
+  intros y [<-|Hy]; [|now apply (IH c')]. now rewrite (factor_port _ _ _ _ Ha).
+Qed.
+
+Section Emitted.
+Variables (l : list arv) (x : arv).
+Hypothesis W : wfc (l ++ [x]).
+Let l' := gsel gk (gk x) (l ++ [x]).
+Let ports' := gkeys fst l'.
+
+Lemma P_l' y : In y l' <-> In y (l ++ [x]) /\ gk y = gk x.
+Proof. apply gsel_in. Qed.
+Lemma P_x : In x l'.
+Proof. apply P_l'. rewrite in_app_iff. simpl. auto. Qed.
+Lemma P_ports : NoDup ports' /\ (forall q, In q ports' <-> In q (map fst l')) /\ incl ports' items.
+Proof.
+  destruct (gkeys_spec fst l') as [A B]. split; auto. split; auto.
+  intros q Hq. apply B in Hq. apply in_map_iff in Hq. destruct Hq as (y & <- & Hy).
+  apply P_l' in Hy. destruct W as (_ & Hp & _). apply Hp. tauto.
+Qed.
+Lemma P_full : length ports' = n -> incl items ports'.
+Proof.
+  intros En. destruct P_ports as (A & _ & C). apply NoDup_length_incl; auto. unfold n in En. rewrite En. apply le_n.
+Qed.
+Lemma P_factor q y : In y (factor l' x q) -> In y l'.
+Proof.
+  unfold factor. destruct (String.eqb q (fst x)).
+  - intros [<-|[]]. apply P_x.
+  - intros Hy. apply gsel_in in Hy. tauto.
+Qed.
+
+Lemma emitted_spec ch : In ch (emitted l x) <-> new_choice l x ch.
+Proof.
+  destruct W as (NDi & Hports & NDk & _). destruct P_ports as (NDp & Mp & Ip).
+  unfold emitted. fold l'. fold ports'. split.
+  - destruct (Nat.eqb_spec (length ports') n) as [En|En]; [|intros []].
+    intros Hch. apply in_map_iff in Hch. destruct Hch as (c & <- & Hc).
+    pose proof (cproduct_ports _ _ _ _ Hc) as Kc. pose proof (cproduct_members _ _ _ _ Hc) as Mc.
+    pose proof (P_full En) as Ifull.
+    assert (G : forall q, In q items -> In (getp q c) c /\ fst (getp q c) = q).
+    { intros q Hq. apply getp_found. rewrite Kc. now apply Ifull. }
+    split; [|split].
+    + unfold reorder. rewrite map_map. rewrite <- (map_id items) at 2. apply map_ext_in.
+      intros q Hq. now apply G.
+    + assert (Hp : In (fst x) items) by (apply Hports; rewrite in_app_iff; simpl; auto).
+      destruct (G _ Hp) as [A B]. pose proof (Mc _ A) as Mx. rewrite B in Mx. unfold factor in Mx.
+      rewrite String.eqb_refl in Mx. destruct Mx as [E|[]]. unfold reorder.
+      apply in_map_iff. exists (fst x). split; [symmetry; exact E|exact Hp].
+    + intros y Hy. unfold reorder in Hy. apply in_map_iff in Hy. destruct Hy as (q & <- & Hq).
+      destruct (G q Hq) as [A _]. apply P_l'. eapply P_factor. apply Mc. exact A.
+  - intros (A & B & C).
+    assert (Hl' : forall y, In y ch -> In y l') by (intros y Hy; apply P_l'; auto).
+    assert (Ifull : incl items ports').
+    { intros q Hq. rewrite <- A in Hq. apply in_map_iff in Hq. destruct Hq as (y & <- & Hy).
+      apply Mp. apply in_map. auto. }
+    assert (En : length ports' = n).
+    { unfold n. apply Nat.le_antisymm; apply NoDup_incl_length; auto. }
+    destruct (Nat.eqb_spec (length ports') n) as [_|]; [|congruence].
+    assert (NDch : NoDup (map fst ch)) by now rewrite A.
+    assert (G : forall q, In q items -> In (getp q ch) ch /\ fst (getp q ch) = q).
+    { intros q Hq. apply getp_found. now rewrite A. }
+    apply in_map_iff. exists (map (fun q => getp q ch) ports'). split.
+    + unfold reorder. transitivity (map (fun q => getp q ch) (map fst ch)); [|now apply reorder_self].
+      rewrite A. apply map_ext_in.
+      intros q Hq. apply getp_map; [now apply Ifull|]. intros q' Hq'. apply G. now apply Ip.
+    + apply in_cproduct. apply Forall2_map2. intros q Hq0.
+      assert (Hq : In q items) by now apply Ip. destruct (G q Hq) as [G1 G2].
+      unfold factor. destruct (String.eqb_spec q (fst x)).
+      * left. apply (NoDup_fst_inj ch); auto. congruence.
+      * apply gsel_in. split; auto.
+Qed.
+
+Lemma emitted_nodup : NoDup (emitted l x).
+Proof.
+  destruct W as (NDi & Hports & NDk & _). destruct P_ports as (NDp & Mp & Ip).
+  unfold emitted. fold l'. fold ports'.
+  destruct (Nat.eqb_spec (length ports') n) as [En|En]; [|constructor].
+  pose proof (P_full En) as Ifull.
+  apply (NoDup_map_on reorder (fun ch => map (fun q => getp q ch) ports')).
+  - intros c Hc. pose proof (cproduct_ports _ _ _ _ Hc) as Kc.
+    assert (NDc : NoDup (map fst c)) by now rewrite Kc.
+    transitivity (map (fun q => getp q c) (map fst c)); [|now apply reorder_self].
+    rewrite Kc. apply map_ext_in. intros q Hq.
+    unfold reorder. apply getp_map; [now apply Ip|].
+    intros q' Hq'. apply getp_found. rewrite Kc. now apply Ifull.
+  - apply NoDup_cproduct. apply Forall_forall. intros L HL. apply in_map_iff in HL. destruct HL as (q & <- & _).
+    unfold factor. destruct (String.eqb q (fst x)).
+    + constructor; [tauto|constructor].
+    + unfold gsel. apply NoDup_filter. unfold l', gsel. apply NoDup_filter.
+      eapply NoDup_map_inv. exact NDk.
+Qed.
+End Emitted.
+
+Theorem cart_choices (arr : list arv) :
+  items <> [] -> wfc arr ->
+  NoDup (concat (ems [] arr)) /\ forall ch, In ch (concat (ems [] arr)) <-> is_choice arr ch.
+Proof.
+  intros Hne. induction arr as [|x l IH] using rev_ind; intros W.
+  - simpl. split; [constructor|]. intros ch. split; [tauto|]. intros (A & B & _).
+    destruct ch as [|y ch]; [simpl in A; congruence|]. apply (B y). simpl. auto.
+  - destruct (IH (wfc_prefix _ _ W)) as [ND M]. rewrite ems_snoc. simpl app. split.
+    + apply NoDup_app_intro; auto.
+      * now apply emitted_nodup.
+      * intros ch Hc Hc'. apply M in Hc. apply (emitted_spec l x W) in Hc'.
+        destruct Hc as (_ & B & _). destruct Hc' as (_ & Hx & _). specialize (B x Hx).
+        destruct W as (_ & _ & NDk & _). rewrite map_app in NDk. simpl in NDk.
+        apply NoDup_remove_2 in NDk. rewrite app_nil_r in NDk. apply NDk. now apply in_map.
+    + intros ch. rewrite in_app_iff, M, (emitted_spec l x W). symmetry. apply choice_split.
+Qed.
+
+(* the cartesian product over well-formed streams: every arrival order emits exactly the combinations of the
+   choices, each choice once, and never raises *)
+Theorem cart_full (arr : list arv) :
+  items <> [] -> wfc arr ->
+  run cc init_state arr = (map (map mk_out) (ems [] arr), None) /\
+  NoDup (concat (ems [] arr)) /\ forall ch, In ch (concat (ems [] arr)) <-> is_choice arr ch.
+Proof.
+  intros Hne W. split; [apply (run_cart arr []); exact W|]. now apply cart_choices.
+Qed.
+Lemma wfc_perm a b : Permutation a b -> wfc a -> wfc b.
+Proof.
+  intros P (A & B & C & D). split; auto. split; [|split].
+  - intros x Hx. apply B. eapply Permutation_in; [apply Permutation_sym; exact P|exact Hx].
+  - eapply Permutation_NoDup; [|exact C]. now apply Permutation_map.
+  - intros x y Hx Hy. apply D; eapply Permutation_in; try (apply Permutation_sym; exact P); auto.
+Qed.
+
+(* two arrival orders of the same tokens emit the same bag of combinations *)
+Theorem cart_order_independent (arr1 arr2 : list arv) :
+  items <> [] -> wfc arr1 -> Permutation arr1 arr2 ->
+  snd (run cc init_state arr1) = None /\ snd (run cc init_state arr2) = None /\
+  Permutation (concat (fst (run cc init_state arr1))) (concat (fst (run cc init_state arr2))).
+Proof.
+  intros Hne W1 P. pose proof (wfc_perm _ _ P W1) as W2.
+  destruct (cart_full arr1 Hne W1) as (R1 & N1 & M1). destruct (cart_full arr2 Hne W2) as (R2 & N2 & M2).
+  rewrite R1, R2. simpl. split; auto. split; auto.
+  rewrite <- !concat_map. apply Permutation_map. apply NoDup_Permutation; auto.
+  intros ch. rewrite M1, M2. unfold is_choice. split; intros (A & B & C); repeat split; auto; intros y Hy;
+    eapply Permutation_in; try apply B; eauto. now apply Permutation_sym.
+Qed.
+End Cart.
+
+(* ---------- tokens of one depth satisfy the hypothesis on groups ---------- *)
+Lemma split_comps_nochar c : forall s, forallb (fun x => negb (has_char c x)) (split_on c s) = true.
+Proof.
+  induction s as [|a s IH]; simpl; auto.
+  destruct (Ascii.eqb a c) eqn:E; simpl; auto.
+  destruct (split_on c s) as [|w ws]; simpl in *.
+  - now rewrite E.
+  - rewrite E. simpl. exact IH.
+Qed.
+Lemma forallb_firstn {A} (f : A -> bool) : forall m l, forallb f l = true -> forallb f (firstn m l) = true.
+Proof.
+  induction m; intros [|x l]; simpl; auto. intros H. apply andb_true_iff in H. destruct H as [-> H]. simpl. auto.
+Qed.
+Lemma prefixb_same_length : forall p l, list_prefixb p l = true -> length p = length l -> p = l.
+Proof.
+  induction p as [|x p IH]; intros [|y l]; simpl; try discriminate; auto.
+  intros H L. apply andb_true_iff in H. destruct H as [E H]. apply String.eqb_eq in E. subst. f_equal. apply IH; auto.
+Qed.
+
+(* all tokens have D components  =>  distinct groups are unrelated *)
+Theorem uniform_depth_gflat d D (arr : list arv) :
+  (forall x, In x arr -> length (split_on "." (atag x)) = D) -> gflat d arr.
+Proof.
+  intros H x y Hx Hy Hne. unfold gk, drop_last in *. rewrite (H x Hx), (H y Hy) in *.
+  set (m := D - d) in *. set (la := firstn m (split_on "." (atag x))) in *.
+  set (lb := firstn m (split_on "." (atag y))) in *.
+  assert (La : length la = Nat.min m D) by (unfold la; now rewrite firstn_length, (H x Hx)).
+  assert (Lb : length lb = Nat.min m D) by (unfold lb; now rewrite firstn_length, (H y Hy)).
+  destruct la as [|a la'] eqn:Ea.
+  - destruct lb; [congruence|]. simpl in *. lia.
+  - destruct lb as [|b lb'] eqn:Eb; [simpl in *; lia|]. rewrite <- Ea, <- Eb in *.
+    unfold is_parent_tag_s.
+    change "."%string with (sep1 "."%char).
+    rewrite !split_join; try (rewrite Ea; discriminate); try (rewrite Eb; discriminate);
+      try (apply forallb_firstn, split_comps_nochar).
+    destruct (list_prefixb lb la) eqn:P; auto. exfalso. apply Hne.
+    apply prefixb_same_length in P; [|congruence]. now rewrite P.
+Qed.
